@@ -185,6 +185,7 @@ pub fn crash_probes(fslog: &[FsRec], dirkey: &str, cfg: &Cfg, opts: &Value, seed
     let per_pos = opts["per_pos"].as_u64().unwrap_or(6) as usize;
     let bytes = opts["bytes"].as_bool().unwrap_or(false);
     let do_cont = opts["cont"].as_bool().unwrap_or(true);
+    let gen2 = opts["gen2"].as_bool().unwrap_or(false);
     let root = scratch_root();
     let _ = shim::unobserved(|| std::fs::create_dir_all(&root));
     let mut out = vec![];
@@ -268,6 +269,13 @@ pub fn crash_probes(fslog: &[FsRec], dirkey: &str, cfg: &Cfg, opts: &Value, seed
                 let res = r["res"].as_str().unwrap_or("").to_string();
                 let same = res == "ok" || before == image::dir_digest(&dir);
                 let _ = shim::unobserved(|| std::fs::remove_dir_all(&dir));
+                // second generation: the machine dies again DURING this recovery, after each of its
+                // file-modifying calls (the recovery is re-run under observation to learn those calls)
+                if gen2 && res == "ok" && tr {
+                    for ev2 in recovery_crash_probes(&files, &c2, do_cont, *pos, &desc, &mut rng) {
+                        out.push(ProbeOut { pos: *pos, ev: ev2 });
+                    }
+                }
                 let mut ev = json!({"e": "probe", "kind": "crash", "pos": pos, "img": desc, "tr": tr, "wide": wide,
                                     "res": res, "rc": rc_of(&res), "cls": res.rsplit(':').next().unwrap_or(""),
                                     "obs": r["obs"], "files_after": r["files_after"], "same": same});
@@ -279,6 +287,70 @@ pub fn crash_probes(fslog: &[FsRec], dirkey: &str, cfg: &Cfg, opts: &Value, seed
         }
     }
     let _ = shim::unobserved(|| std::fs::remove_dir_all(&root));
+    out
+}
+
+/// Crash during the recovery of `files`: run the recovery once inside the observed root (quietly) to learn
+/// its file-system calls, then open the directory as it is after each of its modifying calls -- once with
+/// everything written kept, once with unsynced bytes (the new head) lost.
+pub fn recovery_crash_probes(files: &BTreeMap<String, Vec<u8>>, cfg: &Cfg, do_cont: bool, pos: u64, parent: &[Value], rng: &mut Rng) -> Vec<Value> {
+    let tracked_root = shim::shim().root.clone();
+    let key = format!("g2.{}.{}", pos, rng.next() % 1_000_000);
+    let tdir = format!("{}/{}", tracked_root, key);
+    image::materialize(&tdir, files);
+    let seq0 = {
+        let sh = shim::shim();
+        sh.seq
+    };
+    {
+        let config = Arc::new(cfg.config(&tdir));
+        let n_before = gate::worker_count();
+        if let Ok(Ok(rl)) = catch_unwind(AssertUnwindSafe(|| RaftLog::<VT>::open(config))) {
+            if let Some(w) = gate::wait_new_worker(n_before) {
+                gate::set_free(&w);
+                shim::shim().ignore_tids.insert(w);
+            }
+            drop(rl);
+        }
+    }
+    let recs: Vec<FsRec> = shim::shim().fslog.iter().filter(|r| r.seq > seq0 && r.dir == key && r.tid == "c").cloned().collect();
+    let _ = shim::unobserved(|| std::fs::remove_dir_all(&tdir));
+    let mods: Vec<usize> = recs.iter().enumerate()
+        .filter(|(_, r)| matches!(r.call, "ftruncate" | "unlink" | "creat" | "write") && r.file != "LOCK" && r.res >= 0)
+        .map(|(i, _)| i).collect();
+    let mut out = vec![];
+    let root = scratch_root();
+    for (k, upto) in mods.iter().enumerate() {
+        let mut st: BTreeMap<String, FileImg> = files.iter()
+            .map(|(n, c)| (n.clone(), FileImg { content: c.clone(), synced: c.len(), linked: true })).collect();
+        for r in recs.iter().take(*upto + 1) {
+            image::apply(&mut st, r);
+        }
+        for keep in [true, false] {
+            let mut f2: BTreeMap<String, Vec<u8>> = BTreeMap::new();
+            let mut desc = vec![];
+            for (n, f) in st.iter() {
+                if !f.linked || n == "LOCK" {
+                    continue;
+                }
+                let len = if keep { f.content.len() } else { f.synced.min(f.content.len()) };
+                desc.push(json!([shim::chunk_of(n), len, 0, "none", f.synced, f.content.len()]));
+                f2.insert(n.clone(), f.content[..len].to_vec());
+            }
+            let dir = format!("{}/g2_{}_{}_{}", root, pos, k, keep as u8);
+            image::materialize(&dir, &f2);
+            let r = open_and_continue(&dir, cfg, do_cont);
+            let res = r["res"].as_str().unwrap_or("").to_string();
+            let _ = shim::unobserved(|| std::fs::remove_dir_all(&dir));
+            let mut ev = json!({"e": "probe", "kind": "crash", "gen2": true, "after_call": k + 1, "pos": pos, "img": desc, "parent": parent,
+                                "tr": true, "wide": false, "res": res, "rc": rc_of(&res), "cls": res.rsplit(':').next().unwrap_or(""),
+                                "obs": r["obs"], "files_after": r["files_after"], "same": true});
+            if let Some(c) = r.get("cont") {
+                ev["cont"] = c.clone();
+            }
+            out.push(ev);
+        }
+    }
     out
 }
 
